@@ -87,7 +87,7 @@ def gen_tree(rng, n, k, depth, prof):
 def gen_wild(rng, n, depth, consts):
     """Untyped programs: ill-typed sums, degrees beyond n, zeros as operands, bare constants."""
     if depth <= 0 or rng.random() < 0.2:
-        if consts and rng.random() < 0.25:
+        if consts and rng.random() < 0.4:
             return {"t": "const", "c": gen_coef(rng, allow_zero=True)}
         return form(rng.randrange(3), rng.randint(0, n), n)
     c = rng.choice(["sum", "scale", "d", "delta", "hodge", "wedge", "d", "delta", "hodge"])
@@ -160,7 +160,10 @@ def gen_case(rng, tier, idx):
     c = gen_coef(rng)
     case.update({"params": {"e": e, "e1": e1, "e2": e2, "c": c, "w": w, "l": l, "etop": etop, "e0": e0,
                             "ediff": ediff}})
-    case["progs"] = [e, op1(rng.choice(["d", "delta", "hodge"]), e), wedge(e, w)]
+    at = form(rng.randrange(3), k, n)
+    case["progs"] = [e, op1("d", e), op1("delta", e), op1("hodge", e), wedge(e, w), wedge(w, e),
+                     op1("d", op1("d", e1)), op1("delta", op1("delta", e1)), op1("hodge", op1("hodge", at)),
+                     op1("hodge", op1("hodge", e2)), sc(c, e), tsum([e1, e2, e])]
     case["checks"] = law_checks(n, k, e, e1, e2, c, w, l, etop, e0, ediff)
     return case
 
@@ -555,6 +558,39 @@ def value_has(v, pred):
     return any(value_has(s, pred) for s in subs)
 
 
+def root_arm(t, children):
+    """Which arm of the eval classmethod the root call takes, read off the operand's value."""
+    k = t["t"]
+    if k not in ("d", "delta", "hodge", "wedge") or not children:
+        return None
+    if k == "wedge":
+        a, b = children[0]["k"], children[1]["k"]
+        if a == "add":
+            return "wedge:left-Add"
+        if b == "add":
+            return "wedge:right-Add"
+        return "wedge:" + ("Mul" if "mul" in (a, b) else "plain")
+    v = children[0]
+    vk = v["k"]
+    if vk == "op" and v["name"] == k:
+        if k == "hodge":
+            return "hodge:hodge-of-" + ("atom" if v["arg"]["k"] == "form" else "non-atom")
+        return k + ":nilpotent"
+    if vk in ("num", "sym"):
+        return k + ":coefficient"
+    if vk == "form":
+        if k == "d":
+            return "d:atom-" + ("top" if v["deg"] == v["dim"] else "default")
+        if k == "delta":
+            return "delta:atom-" + ("degree0" if v["deg"] == 0 else "default")
+        return "hodge:default"
+    if vk == "add":
+        return k + ":Add"
+    if vk == "mul":
+        return k + ":Mul"
+    return k + ":default"
+
+
 def cause_of(chk, res, sem_equal):
     """Why a law that fails on the implementation fails, from the values alone."""
     trees = [chk[x] for x in ("lhs", "rhs", "infer") if chk.get(x) is not None]
@@ -584,7 +620,7 @@ def cause_of(chk, res, sem_equal):
 def main(run, replay=None):
     rng = run.rng
     quick = run.tier == "quick"
-    ncases = 170 if quick else 2200
+    ncases = 420 if quick else 4500
     proof_ok = run.coq_props()
 
     corpus_path = run.work.parents[1] / "corpus" / "C19.json"
@@ -719,7 +755,8 @@ def judge(run, cases, results, model):
     """Oracle of the property on the implementation's outputs, and the classification of failures."""
     findings = []
     st = {"law_checks": 0, "law_pass": 0, "law_fail": {}, "sound_checks": 0, "sound_fail": 0,
-          "agree": 0, "disagree": 0, "unsupported": 0, "raised": {}, "by_law": {}}
+          "agree": 0, "disagree": 0, "unsupported": 0, "raised": {}, "by_law": {}, "infer_results": {},
+          "root_arms": {}}
     explained = set()       # (ci, label prefix) of disagreements that come with an oracle failure
 
     def magree(ci, labs):
@@ -735,7 +772,32 @@ def judge(run, cases, results, model):
                              "where": "C19 correspondence runner", "found_input": False})
             continue
         n = case["n"]
-        # ---- soundness oracle on plain programs: the value denotes what the program means
+        # ---- soundness oracle: the value denotes what the program means (plain programs and every
+        #      program occurring in a law instance)
+        def sound(t, value, lab):
+            try:
+                st["sound_checks"] += 1
+                ok = lc_key(nf_value(value, n)) == lc_key(nf_tree(t, n))
+            except Unsupported as e:
+                st["unsupported"] += 1
+                findings.append({"sig": {"law": "serialise", "cause": "unsupported-node:%s" % e},
+                                 "what": "the implementation's value contains a node outside the grammar: %s" % e,
+                                 "case": {"n": n, "prog": t}, "observed": value, "required": "a value of the fragment",
+                                 "python": python_replay({"infer": t}), "where": "serialiser", "found_input": True})
+                return
+            if ok:
+                return
+            st["sound_fail"] += 1
+            cause = "bare-constant-operand" if has_const(t) else "wrong-value"
+            sig = {"law": "soundness", "class": "unsound", "cause": cause, "model": magree(ci, [lab])}
+            explained.add((ci, lab.split(".")[0]))
+            findings.append({"sig": sig, "what": "the value built by the implementation does not denote the program "
+                             "(independent normal-form semantics): " + skeleton(t),
+                             "case": {"n": n, "prog": t, "skeleton": skeleton(t)}, "observed": value,
+                             "required": "a value equal to the program modulo the laws of the graded module",
+                             "python": python_replay({"infer": t}), "where": "oracle:soundness", "found_input": True,
+                             "shrinkable": {"mode": "prog"}})
+
         for j, (t, r) in enumerate(zip(case["progs"], res["progs"])):
             if "raised" in r:
                 st["raised"][r["raised"]] = st["raised"].get(r["raised"], 0) + 1
@@ -745,28 +807,23 @@ def judge(run, cases, results, model):
                                  "python": python_replay({"infer": t}), "where": "oracle:construction",
                                  "found_input": True})
                 continue
-            try:
-                st["sound_checks"] += 1
-                ok = lc_key(nf_value(r["value"], n)) == lc_key(nf_tree(t, n))
-            except Unsupported as e:
-                st["unsupported"] += 1
-                findings.append({"sig": {"law": "serialise", "cause": "unsupported-node:%s" % e},
-                                 "what": "the implementation's value contains a node outside the grammar: %s" % e,
-                                 "case": {"n": n, "prog": t}, "observed": r["value"], "required": "a value of the fragment",
-                                 "python": python_replay({"infer": t}), "where": "serialiser", "found_input": True})
+            sound(t, r["value"], "p%d.value" % j)
+            ik = json.dumps(r["infer"])
+            st["infer_results"][ik] = st["infer_results"].get(ik, 0) + 1
+            arm = root_arm(t, r["children"])
+            if arm:
+                st["root_arms"][arm] = st["root_arms"].get(arm, 0) + 1
+        for j, (c, r) in enumerate(zip(case["checks"], res["checks"])):
+            if "raised" in r:
                 continue
-            if not ok:
-                st["sound_fail"] += 1
-                cause = "bare-constant-operand" if has_const(t) else "wrong-value"
-                sig = {"law": "soundness", "class": "unsound", "cause": cause,
-                       "model": magree(ci, ["p%d.value" % j])}
-                explained.add((ci, "p%d" % j))
-                findings.append({"sig": sig, "what": "the value built by the implementation does not denote the program "
-                                 "(independent normal-form semantics): " + skeleton(t),
-                                 "case": {"n": n, "prog": t, "skeleton": skeleton(t)}, "observed": r["value"],
-                                 "required": "a value equal to the program modulo the laws of the graded module",
-                                 "python": python_replay({"infer": t}), "where": "oracle:soundness", "found_input": True,
-                                 "shrinkable": {"mode": "prog"}})
+            if "infer" in c:
+                sound(c["infer"], r["value"], "c%d.value" % j)
+                ik = json.dumps(r["infer"])
+                st["infer_results"][ik] = st["infer_results"].get(ik, 0) + 1
+            else:
+                sound(c["lhs"], r["lhs"], "c%d.lhs" % j)
+                if c.get("rhs") is not None:
+                    sound(c["rhs"], r["rhs"], "c%d.rhs" % j)
         # ---- the laws
         for j, (c, r) in enumerate(zip(case["checks"], res["checks"])):
             law = c["law"]
@@ -1015,6 +1072,7 @@ def coverage(cases, results, st):
         "vacuous_degree_checks_skipped": st.get("vacuous_degree_checks", 0),
         "soundness_comparisons": st["sound_checks"], "soundness_failures": st["sound_fail"],
         "raised": st["raised"], "unsupported_nodes": st["unsupported"],
+        "infere_type_results": st["infer_results"], "root_call_arms": st["root_arms"],
         "case_kinds": kinds, "dimension_histogram": dims, "degree_over_dimension_histogram": degs,
         "program_depth_histogram": depths, "program_size_histogram": sizes, "operator_counts": ops,
         "dimensions_supported": "DifferentialForm accepts any integer dim; degrees are limited to 0..6 by "
